@@ -25,6 +25,9 @@
 //
 // Regexp oracle.  `anch` has one character per matcher of the list: 'x' for = / !=,
 // otherwise what Go's regexp package says about "the pattern matches the WHOLE
+//	apisil <ML> <LS> -> <0|1|S> <anch>              POST /api/v2/silences on the real API handler with the matchers as JSON objects
+//	                                                (isEqual left out where it has its documented default, true, on every second call),
+//	                                                then: does the stored silence mute LS (Silences.Query, QMatches)?  S = the API refused it
 // label value": regexp.Compile("^(?:" + value + ")$").MatchString(lset[name]),
 // '1' / '0', or 'E' when that expression does not compile.  It is computed by
 // the harness from the matcher's Value alone, independently of labels.NewMatcher
@@ -60,6 +63,7 @@ import (
 	"github.com/prometheus/alertmanager/matcher/parse"
 	"github.com/prometheus/alertmanager/pkg/labels"
 	"github.com/prometheus/alertmanager/provider/mem"
+	"github.com/prometheus/alertmanager/silence"
 	"github.com/prometheus/alertmanager/types"
 	"github.com/prometheus/client_golang/prometheus"
 
@@ -366,6 +370,15 @@ func exec(line string) string {
 		}
 		lset := parseLS(f[2])
 		return apiMatch(lm, lset) + " " + oracle(ms, lset, true)
+	case "apisil":
+		need(3)
+		ms := parseML(f[1])
+		lm, st := build(ms)
+		if st != "" {
+			return st
+		}
+		lset := parseLS(f[2])
+		return apiSil(lm, lset) + " " + oracle(ms, lset, true)
 	case "mset":
 		need(3)
 		var set labels.MatcherSet
@@ -388,9 +401,11 @@ func exec(line string) string {
 // ---- the API's alert filter (api/v2 matchFilterLabels behind GET /api/v2/alerts?filter=…) ----
 
 var (
+	apiSils   *silence.Silences
 	apiAlerts *mem.Alerts
 	apiH      http.Handler
 	apiSeq    int
+	silSeq    int
 )
 
 func apiMatch(lm labels.Matchers, lset model.LabelSet) string {
@@ -405,7 +420,11 @@ func apiMatch(lm labels.Matchers, lset model.LabelSet) string {
 		if err != nil {
 			panic(err)
 		}
-		api, err := apiv2.NewAPI(apiAlerts, nil, nil, nil, nil, promslog.NewNopLogger(), reg)
+		apiSils, err = silence.New(silence.Options{Metrics: prometheus.NewRegistry(), EventRecorder: eventrecorder.NopRecorder()})
+		if err != nil {
+			panic(err)
+		}
+		api, err := apiv2.NewAPI(apiAlerts, nil, nil, apiSils, nil, promslog.NewNopLogger(), reg)
 		if err != nil {
 			panic(err)
 		}
@@ -459,6 +478,62 @@ func apiMatch(lm labels.Matchers, lset model.LabelSet) string {
 		return "E"
 	}
 	return bit(len(out) > 0)
+}
+
+// apiSil posts a silence with the given matchers through the real handler and asks the real store whether it mutes lset.
+func apiSil(lm labels.Matchers, lset model.LabelSet) string {
+	apiMatch(nil, model.LabelSet{"a": "b"}) // (re)creates the API every 400 calls
+	for _, m := range lm {
+		if !utf8.ValidString(m.Name) || !utf8.ValidString(m.Value) {
+			return "S"
+		}
+	}
+	for n, v := range lset {
+		if !utf8.ValidString(string(n)) || !utf8.ValidString(string(v)) {
+			return "S"
+		}
+	}
+	silSeq++
+	type jm = map[string]any
+	var jms []jm
+	for _, m := range lm {
+		o := jm{"name": m.Name, "value": m.Value, "isRegex": m.Type == labels.MatchRegexp || m.Type == labels.MatchNotRegexp}
+		eq := m.Type == labels.MatchEqual || m.Type == labels.MatchRegexp
+		if !eq || silSeq%2 == 0 {
+			o["isEqual"] = eq
+		}
+		jms = append(jms, o)
+	}
+	now := time.Now()
+	body, err := json.Marshal(jm{"matchers": jms, "startsAt": now.Add(-time.Second).UTC().Format(time.RFC3339Nano),
+		"endsAt": now.Add(time.Hour).UTC().Format(time.RFC3339Nano), "createdBy": "verif", "comment": "c"})
+	if err != nil {
+		return "S"
+	}
+	req := httptest.NewRequest("POST", "/api/v2/silences", strings.NewReader(string(body)))
+	req.Header.Set("Content-Type", "application/json")
+	rec := httptest.NewRecorder()
+	apiH.ServeHTTP(rec, req)
+	if rec.Code != 200 {
+		return "S"
+	}
+	var out struct {
+		SilenceID string `json:"silenceID"`
+	}
+	if err := json.Unmarshal(rec.Body.Bytes(), &out); err != nil || out.SilenceID == "" {
+		return "E"
+	}
+	ls := model.LabelSet{}
+	for n, v := range lset {
+		if v != "" {
+			ls[n] = v
+		}
+	}
+	sils, _, err := apiSils.Query(context.Background(), silence.QIDs(out.SilenceID), silence.QMatches(ls))
+	if err != nil {
+		return "E"
+	}
+	return bit(len(sils) > 0)
 }
 
 // ---- rune pool (the Lean side hard-codes this printability table) ----
@@ -1471,6 +1546,9 @@ func runCase(tr *hx.Trace, id int, g *gen, do func(string) string) {
 			do("match " + ml + " " + ls)
 			if g.r.IntN(3) == 0 {
 				do("apimatch " + ml + " " + ls)
+			}
+			if g.r.IntN(4) == 0 {
+				do("apisil " + ml + " " + ls)
 			}
 		}
 		lists := make([]string, 1+g.r.IntN(3))
